@@ -237,6 +237,27 @@ fn check_std_adaptors(c: &ACase, obs: &mut Obs) -> CheckResult {
     one!("rev", v.titer().rev());
     one!("repeat_n.chain", std::iter::repeat_n(1.5f64, c.k % 5).chain(v.titer()));
     one!("range.map", (0..c.k).map(|i| i as f64));
+    // step_by advances its source with nth: the library adaptors underneath must keep counting
+    one!("vshift.step_by", v.titer().vshift(lag, fill).step_by(1 + c.k % 4));
+    one!("to_trust.step_by", v.titer().to_trust(len).step_by(2 + c.k % 3));
+    one!("vabs.ffill.step_by", v.titer().vabs().ffill(fill).step_by(1 + c.w % 3));
+    // nth directly on the length-tracking wrapper and on an adaptor built on it
+    for n in [0usize, 1, c.k % (len + 2)] {
+        let mut it = v.titer().to_trust(len);
+        let _ = it.nth(n);
+        let (lo, hi) = it.size_hint();
+        let rest = it.count();
+        if hi != Some(rest) || lo != rest {
+            return fail("to_trust.nth:hint!=count", format!("to_trust({}) after nth({}) announces ({}, {:?}) but {} items follow", len, n, lo, hi, rest));
+        }
+        let mut it = v.titer().vshift(lag, fill);
+        let _ = it.nth(n);
+        let (_, hi) = it.size_hint();
+        let rest = it.count();
+        if hi != Some(rest) {
+            return fail("vshift.nth:hint!=count", format!("vshift({}) after nth({}) announces {:?} but {} items follow", lag, n, hi, rest));
+        }
+    }
     obs.set_nontrivial(len >= 2 && c.k >= 1);
     Ok(())
 }
